@@ -87,6 +87,36 @@ Theorem C05_newton_res_bound_p : forall T mu1 mu2 rho1 rho2 p1 p2 p tol, 0 < T -
 Proof. exact newton_res_bound_p. Qed.
 Print Assumptions C05_newton_res_bound_p.
 
+(** Heteroazeotrope (three phases), temperature specified: the returned phases are the ones whose residual norm
+    passed the test, hence equal fugacities liquid/vapor within tol/(RT) and equal pressures within tol. *)
+Theorem C05_hetero_res_bound_T : forall T mu1 mu2 muv rho1 rho2 rhov p1 p2 pv tol, 0 < T ->
+  Forall (fun q => 0 < fst (snd q) /\ 0 < snd (snd q)) (comp_data mu1 muv rho1 rhov) ->
+  Forall (fun q => 0 < fst (snd q) /\ 0 < snd (snd q)) (comp_data mu2 muv rho2 rhov) ->
+  hetero_err_T T mu1 mu2 muv rho1 rho2 rhov p1 p2 pv < tol ->
+  isofugacity_within T (tol / T) (comp_data mu1 muv rho1 rhov) /\
+  isofugacity_within T (tol / T) (comp_data mu2 muv rho2 rhov) /\
+  Rabs (p1 - pv) < tol /\ Rabs (p2 - pv) < tol /\ Rabs (p1 - p2) < 2 * tol.
+Proof. exact hetero_res_bound_T. Qed.
+Print Assumptions C05_hetero_res_bound_T.
+
+(** ... pressure specified. *)
+Theorem C05_hetero_res_bound_p : forall T mu1 mu2 muv rho1 rho2 rhov p1 p2 pv p tol, 0 < T ->
+  Forall (fun q => 0 < fst (snd q) /\ 0 < snd (snd q)) (comp_data mu1 muv rho1 rhov) ->
+  Forall (fun q => 0 < fst (snd q) /\ 0 < snd (snd q)) (comp_data mu2 muv rho2 rhov) ->
+  hetero_err_p T mu1 mu2 muv rho1 rho2 rhov p1 p2 pv p < tol ->
+  isofugacity_within T (tol / T) (comp_data mu1 muv rho1 rhov) /\
+  isofugacity_within T (tol / T) (comp_data mu2 muv rho2 rhov) /\
+  Rabs (p1 - p) < tol /\ Rabs (p2 - p) < tol /\ Rabs (pv - p) < tol.
+Proof. exact hetero_res_bound_p. Qed.
+Print Assumptions C05_hetero_res_bound_p.
+
+(** Pressure-specified heteroazeotrope: after at least one Newton update (or from a common start temperature) the
+    three phases share one temperature, whatever the start temperatures and steps. *)
+Theorem C05_hetero_p_common_temperature : forall (s : het_temps) (dts : list R),
+  (dts <> [] \/ het_common s) -> het_common (fold_left het_step_p dts s).
+Proof. exact hetero_p_common_temperature. Qed.
+Print Assumptions C05_hetero_p_common_temperature.
+
 (** Tp flash: the state accepted by the successive substitution has every fugacity mismatch below tol. *)
 Theorem C05_flash_res_bound : forall p lnphi_l lnphi_v x y tol, 0 < p ->
   Forall (fun q => 0 < fst (snd q) /\ 0 < snd (snd q)) (comp_data lnphi_l lnphi_v x y) ->
